@@ -159,6 +159,11 @@ func collectTypeRefs(t Type, add func(string)) {
 		if t.Size != nil {
 			collectExprDeps(t.Size, nil, add)
 		}
+	case *BindingArrayType:
+		collectTypeRefs(t.Element, add)
+		if t.Size != nil {
+			collectExprDeps(t.Size, nil, add)
+		}
 	case *PtrType:
 		collectTypeRefs(t.PointeeType, add)
 	}
@@ -193,6 +198,9 @@ func collectExprDeps(e Expr, locals map[string]bool, add func(string)) {
 		collectExprDeps(e.Expr, locals, add)
 		collectExprDeps(e.Index, locals, add)
 	case *MemberExpr:
+		collectExprDeps(e.Expr, locals, add)
+	case *BitcastExpr:
+		collectTypeRefs(e.Type, add)
 		collectExprDeps(e.Expr, locals, add)
 	}
 }
